@@ -87,7 +87,7 @@ def index_overlap(left_chemicals, right_chemicals, right_index):
                 left_index[i] = index
             else:
                 raise UndefinedChemicalAlias(CAS)
-        cache[CASs] = (left_index, 0)
+        cache[CASs] = (left_index, 3)
         if len(cache) > 100: cache.pop(cache.__iter__().__next__())
         return left_index, right_index
 
